@@ -436,6 +436,24 @@ RARE_DEFECT_SNIPPETS = [
 ]
 
 
+SHADOWED_TYPING_NAMES = ["Literal", "Optional", "Union", "Callable", "Any", "List"]
+
+
+def shadow_program(name: str, form: int) -> str:
+  """A module that defines its own `name` and reaches the typing construct of that name through `typing.`: the
+  printer must fall back to `import typing` + `typing.<name>[...]` and the parser must read that back (seed C05-e)."""
+  own = [f"class {name}:\n  pass", f"{name} = 3", f"def {name}(): return 1"][form % 3]
+  use = f"own_inst = {name}()" if form % 3 == 0 else f"own_inst = {name}"
+  return f'''import typing
+{own}
+def own_f(mode: typing.Literal['r', 'w'] = 'r', o: typing.Optional[int] = None) -> typing.Literal[True]: return True
+own_x: typing.Literal[1, 2] = 1
+own_y: typing.Optional[typing.List[int]] = None
+def own_g(f: typing.Callable[[int], str], u: typing.Union[int, str]) -> typing.Any: return f
+{use}
+'''
+
+
 def feature_program(rng: random.Random) -> str:
   global _SNIPPETS
   if _SNIPPETS is None:
@@ -550,6 +568,9 @@ def child(arg):
           src = programs.generate(rng)
         elif flavour == "junk":
           src = junk_program(rng)
+        elif flavour == "shadow":
+          src = shadow_program(SHADOWED_TYPING_NAMES[seed % len(SHADOWED_TYPING_NAMES)],
+                               seed // len(SHADOWED_TYPING_NAMES))
         else:
           src = feature_program(rng)
         del captured[:]
@@ -664,6 +685,10 @@ def _tasks(tier, seed):
     hs = str(b % 2)
     tasks.append({"fn": "vf.checks.c05:child", "id": f"prog{b}", "timeout": 2400, "hashseed": hs,
                   "arg": {"kind": "programs", "cases": cases, "hashseed": hs}})
+  # fixed batch, the same in both tiers and for every seed: every shadowed typing name x every defining form
+  tasks.append({"fn": "vf.checks.c05:child", "id": "shadow", "timeout": 2400, "hashseed": "0",
+                "arg": {"kind": "programs", "hashseed": "0",
+                        "cases": [["shadow", i] for i in range(3 * len(SHADOWED_TYPING_NAMES))]}})
   for b in range(n_unit_batches):
     hs = str(b % 2)
     tasks.append({"fn": "vf.checks.c05:child", "id": f"unit{b}", "timeout": 2400, "hashseed": hs,
